@@ -13,5 +13,5 @@ CONSTANTS
   Chars = {}
   IntParts = {}
   Sample = 1
-INVARIANTS InvCallTotal InvNormalForm InvModeDiscipline InvBindingIsFunction InvOkMeansEachParameterOnce InvPositionalFirst InvRenderReads
+INVARIANTS EmitCall
 CHECK_DEADLOCK FALSE
